@@ -205,6 +205,7 @@ class Requestant(httping.Parsent):
 
         if self.chunked:  # chunked takes precedence over length
             self.parms = dict()
+            self.trails = None  # not those of previous message
             while True:  # parse all chunks here
                 if self.closed:  # connection closed prematurely
                     raise httping.PrematureClosure("Connection closed unexpectedly"
